@@ -155,7 +155,7 @@ def exact_value(op, ex):
 class C12(Check):
     ID = 'C12'
     LEVEL = 'exploration'
-    BUDGET = {'quick': 30, 'thorough': 240}
+    BUDGET = {'quick': 75, 'thorough': 240}
     RULE = ('case = (dataset: distribution gauss/uniform/int/constant/alternating/outlier/small-ints-with-repeats/plateau-then-variation/half-integer lattice x offset {0,+-1,1e3,1e6,1e9} x scale 1e-8..1e8 x '
             'n in {0,1,2,3,10,100,1000,2500 (quick), 10000 (thorough)} x data seed; operator in the eight aggregates; mode plain / one multiplexed key / '
             '3 interleaved groups under group_by; key_mapper on/off). Every prefix value of the streaming variant and the reduce value are compared '
@@ -165,11 +165,11 @@ class C12(Check):
                    'min/max of an empty sequence with reduce=True emit None (pinned by the suite); mean of an empty sequence is outside the domain']
     ANCHORS = ['rxsci/math/sum.py', 'rxsci/math/mean.py', 'rxsci/math/min.py', 'rxsci/math/max.py', 'rxsci/math/variance.py',
                'rxsci/math/stddev.py', 'rxsci/math/formal/variance.py', 'rxsci/math/formal/stddev.py', 'rxsci/math/formal/__init__.py']
-    REQUIRED_TAGS = ['op=' + o for o in OPS] + ['plain', 'mux', 'group', 'km', 'n=0', 'n=1', 'n>=1000', 'n>1024', 'offset>=1e6', 'kind=np_int64', 'kind=np_int32']
+    REQUIRED_TAGS = ['op=' + o for o in OPS] + ['plain', 'mux', 'group', 'km', 'n=0', 'n=1', 'n>=1000', 'n>1024', 'offset>=1e6', 'kind=np_int64', 'kind=np_int32', 'groups-of-different-magnitudes']
     REQUIRED_OBSERVED = ['values_compared', 'stream_equals_reduce_checks']
 
     def generate(self, rng, tier, shard, nshards):
-        ncases = 1150 if tier == 'quick' else 10 ** 7
+        ncases = 900 if tier == 'quick' else 10 ** 7
         kinds = ['gauss', 'uniform', 'int', 'constant', 'alternating', 'outlier', 'small_ints', 'plateau', 'lattice', 'np_int64', 'np_int32']
         offsets = [0.0, 1.0, -1.0, 1e3, 1e6, -1e6, 1e9]
         scales = [1e-8, 1e-3, 1.0, 1.0, 1e3, 1e8]
@@ -240,7 +240,13 @@ class C12(Check):
         if n > 1024:
             out.tags.append('n>1024')
         if mode == 'group':
-            datasets = [build_data(dict(spec, dseed=spec['dseed'] + g, n=max(0, n - g) if n < 4 else n // (g + 1))) for g in range(3)]
+            # the interleaved groups live at clearly different magnitudes (1, 1e-6, 1e6 times the case's scale and offset):
+            # whatever one key's aggregate leaks into another's is then far above the bound
+            mag = [1.0, 1e-6, 1e6] if spec['dseed'] % 2 else [1.0, 1.0, 1.0]
+            datasets = [build_data(dict(spec, dseed=spec['dseed'] + g, n=max(0, n - g) if n < 4 else n // (g + 1),
+                                        scale=spec['scale'] * mag[g], offset=spec['offset'] * mag[g])) for g in range(3)]
+            if mag[1] != 1.0:
+                out.tags.append('groups-of-different-magnitudes')
             datasets = [d for d in datasets if d] or [build_data(dict(spec, n=1))]
         else:
             datasets = [build_data(spec)]
